@@ -148,8 +148,21 @@ class Prog:
         if rm is not None:
             models.append(rm)
         models.append(model)
+        cands = []
         for m in models:
-            inputs = self.float_inputs(m)
+            cands.append(self.float_inputs(m))
+        # The solver's witness is a rational; rounding it to the nearest double can leave the region where the two sides
+        # differ when that region is only a few ulp wide (an equality replaced by "within DBL_EPSILON", a tolerance of
+        # 1e-12).  Any concrete disagreement inside the domain is a genuine violation, wherever it was found, so the
+        # neighbouring doubles of every inexactly representable coordinate are tried as well (one coordinate at a time).
+        for m in models[-1:]:
+            base = self.float_inputs(m)
+            for k, v in m.items():
+                if k in base and isinstance(v, Fraction) and Fraction(base[k]) != v:
+                    for other in (math.nextafter(base[k], math.inf), math.nextafter(base[k], -math.inf)):
+                        if len(cands) < 14:
+                            cands.append(dict(base, **{k: other}))
+        for inputs in cands:
             try:
                 del_near_ties()
                 rv = ref_eval(inputs) if ref_eval else None
